@@ -35,7 +35,9 @@ SPECIAL_PATTERNS = ["v[[MAJOR.]MINOR.]PATCH", "MAJOR.MINOR[[.PATCH]-TAG]", "vYYY
                     # INC1 restarts at 1, which is not a zero: an optional group holding it is always written
                     "YYYY.MM[.INC1]", "MAJOR.MINOR[.INC1]", "vMAJOR[.MINOR[.INC1]]",
                     # a part next to a longer part whose name contains it, in one bracket-free stretch
-                    "vYYYY.MM-YY.BUILD", "GGGGwVV/GG.PATCH", "MAJOR.MINOR.PATCH[-TAG+PYTAGNUM]"]
+                    "vYYYY.MM-YY.BUILD", "GGGGwVV/GG.PATCH", "MAJOR.MINOR.PATCH[-TAG+PYTAGNUM]",
+                    # the documented line anchors around a whole pattern
+                    "^MAJOR.MINOR.PATCH$", "vYYYY0M.BUILD[-TAG]$", "^vMAJOR.MINOR[.PATCH]"]
 
 
 def gen_pattern(r, allow_bad_week=False):
